@@ -3,6 +3,7 @@ package node
 import (
 	"context"
 	"errors"
+	"fmt"
 	"time"
 
 	"tunnox-core/internal/core/storage/hybrid"
@@ -60,3 +61,24 @@ func (f *c15Flaky) SetNX(key string, v interface{}, ttl time.Duration) (bool, er
 }
 
 var errC15Down = errors.New("shared cache unreachable")
+
+// Every node-id slot is held by a live node: a further allocation fails cleanly - the failed
+// allocator owns no id, and releasing it (as shutdown does) takes nothing away from the holders.
+func Harness_C15_nodeid_exhausted() {
+	ctx := context.Background()
+	verif_ClockSet(int64(1) << 60)
+	st := memory.New(ctx)
+	for id := NodeIDMin; id <= NodeIDMax; id++ {
+		nid := fmt.Sprintf("node-%04d", id)
+		verif_Assert("C15.full.setup", st.Set(NodeIDKeyPrefix+nid, nid, NodeIDLockTTL) == nil)
+	}
+	b := NewNodeIDAllocator(st)
+	id, err := b.AllocateNodeID(ctx)
+	verif_Assert("C15.full.fails_cleanly", err != nil && id == "")
+	verif_Assert("C15.full.owns_nothing", b.GetNodeID() == "")
+	b.Release()
+	first, _ := st.Exists(NodeIDKeyPrefix + fmt.Sprintf("node-%04d", NodeIDMin))
+	last, _ := st.Exists(NodeIDKeyPrefix + fmt.Sprintf("node-%04d", NodeIDMax))
+	verif_Assert("C15.full.holders_keep_their_slots", first && last)
+	verif_Cover("C15.full.done")
+}
